@@ -19,7 +19,12 @@ COLS = ("seqid", "source", "featuretype", "start", "end", "score", "strand", "fr
 def parse_line(text):
     f = text.rstrip("\n").split("\t")
     attrs = collections.OrderedDict()
-    if len(f) > 8 and f[8]:
+    if len(f) > 8 and f[8] and '"' in f[8]:            # GTF: key "v1,v2";
+        for part in f[8].strip().rstrip(";").split(";"):
+            k, v = part.strip().split(" ", 1)
+            v = v.strip().strip('"')
+            attrs.setdefault(k, []).extend(v.split(",") if v else [])
+    elif len(f) > 8 and f[8]:
         for part in f[8].split(";"):
             if "=" in part:
                 k, v = part.split("=", 1)
@@ -33,7 +38,9 @@ def parse_line(text):
 
 
 class RefDB(object):
-    def __init__(self):
+    def __init__(self, fmt="gff3"):
+        self.fmt = fmt                              # 'gff3' | 'gtf' (GTF: inference disabled)
+        self.soft = set()                           # relations the statements leave open (accepted either way)
         self.feats = collections.OrderedDict()      # id -> dict(cols, attrs{k: set}, extra)
         self.rels = set()                           # (parent, child, level)
         self.counters = {}                          # autoincrement base -> n
@@ -66,10 +73,15 @@ class RefDB(object):
             return          # "update with no features changes nothing"
         for text in lines:
             rec = parse_line(text) if isinstance(text, str) else text
-            if "ID" in rec["attrs"] and rec["attrs"]["ID"]:
-                fid = rec["attrs"]["ID"][0]
+            ft = rec["cols"]["featuretype"]
+            if self.fmt == "gff3":
+                idkey = "ID"
             else:
-                fid = self._auto(rec["cols"]["featuretype"])
+                idkey = {"gene": "gene_id", "transcript": "transcript_id"}.get(ft)
+            if idkey and rec["attrs"].get(idkey):
+                fid = rec["attrs"][idkey][0]
+            else:
+                fid = self._auto(ft)
             used = fid
             if fid not in self.feats:
                 self._store(fid, rec)
@@ -80,6 +92,7 @@ class RefDB(object):
             elif strategy == "replace":
                 self._store(fid, rec)           # OrderedDict keeps the original position
                 self.rels = {r for r in self.rels if r[1] != fid}
+                self.soft = {r for r in self.soft if r[1] != fid}
             elif strategy == "create_unique":
                 used = self._fresh(fid)
                 self._store(used, rec)
@@ -97,9 +110,23 @@ class RefDB(object):
                     self.dups.setdefault(fid, []).append(used)
             else:
                 raise ValueError(strategy)
-            for p in rec["attrs"].get("Parent", []):
-                self.rels.add((p, used, 1))
-        self.compose_level2()
+            if self.fmt == "gff3":
+                for p in rec["attrs"].get("Parent", []):
+                    self.rels.add((p, used, 1))
+            else:
+                t = (rec["attrs"].get("transcript_id") or [None])[0]
+                g = (rec["attrs"].get("gene_id") or [None])[0]
+                if t is not None and t != used:
+                    self.rels.add((t, used, 1))
+                if g is not None and g != used:
+                    if t == used:
+                        self.soft.add((g, used, 2))       # explicit transcript line: level-2 child of its gene or not
+                    else:
+                        self.rels.add((g, used, 2))
+                    if t is not None and g != t:
+                        self.rels.add((g, t, 1))
+        if self.fmt == "gff3":
+            self.compose_level2()
 
     def compose_level2(self):
         l1 = {}
@@ -115,6 +142,7 @@ class RefDB(object):
         for fid in ids:
             self.feats.pop(fid, None)
             self.rels = {r for r in self.rels if r[0] != fid and r[1] != fid}
+            self.soft = {r for r in self.soft if r[0] != fid and r[1] != fid}
             # a deleted '<key>_n' entry is no longer a merge candidate (nothing stored under it)
 
     def add_relation(self, parent, child, level, set_parent_attr=False):
@@ -129,7 +157,7 @@ class RefDB(object):
             c = f["cols"]
             feats.append((fid, tuple(c[k] for k in COLS), tuple(sorted((k, tuple(sorted(v))) for k, v in f["attrs"].items())),
                           tuple(f["extra"])))
-        return dict(features=feats, relations=sorted(self.rels))
+        return dict(features=feats, relations=sorted(self.rels - self.soft), soft=set(self.soft))
 
 
 def impl_state(canon):
